@@ -112,8 +112,12 @@ func c15Request(c *Ctx) {
 		if verbose { // verbose mode dumps the request through a Logger that really formats
 			opts = append(opts, buffer.Verbose(true), buffer.Logger(fmtLogger{}))
 		}
-		if p.mem > 0 {
+		if p.mem > 0 || i%4 < 2 {
+			// (a threshold of 0 may be given explicitly: it means "the default", like not giving the option)
 			opts = append(opts, buffer.MemRequestBodyBytes(p.mem))
+		}
+		if i%3 == 0 { // the order in which options are given does not matter
+			opts[0], opts[len(opts)-1] = opts[len(opts)-1], opts[0]
 		}
 		buf, err := buffer.New(h, opts...)
 		if err != nil {
